@@ -30,8 +30,9 @@ def gen_cases(rng, n):
         if delta < 0:
             delta = 0
         ev_us = lot_us + delta
-        if ev_us > 253_402_300_000 * 1_000_000:
-            ev_us = 253_402_300_000 * 1_000_000 - rng.below(DAY)
+        cap = (253_402_300_000 - 15 * 3600) * 1_000_000     # local time (offset up to +14 h) must stay inside year 9999
+        if ev_us > cap:
+            ev_us = cap - rng.below(DAY)
             if ev_us < lot_us:
                 lot_us = ev_us
         earn = rng.chance(8)
